@@ -282,6 +282,9 @@ func (ex *Exec) dispatch(v ssa.Value, cc *ssa.CallCommon, instr ssa.Instruction,
 		return
 	}
 	if cc.IsInvoke() {
+		if ex.nilsweep && ex.pass == 2 && mayBeNilResult(cc.Value, 0) {
+			ex.panicOblig("nil", instr.Pos(), isCallExpr, fmt.Sprintf("(not (iface_isnil %s))", ex.val(cc.Value).T))
+		}
 		// contract keyed by "Iface.Method"
 		recvT := cc.Value.Type()
 		key := types.TypeString(recvT, func(p *types.Package) string {
